@@ -86,9 +86,11 @@ BAD_STRINGS = ['hello', '0xzz', '0b12', 'uint:8', 'u8=300', 'float:7=1', '0o8', 
                'u8=-1', '=', ':', 'bool=2', '1', 'abc=1', 'u=5']
 TRUTHY = [1, 2, -1, 'x', 0.5, True, [0], '0']
 FALSY = [0, '', None, 0.0, False, [], 0, '']
-RHS_KINDS = ['str_bin', 'str_bin', 'str_hex', 'str_oct', 'str_mix', 'str_uint', 'bytes', 'bytearray',
-             'memoryview', 'list', 'tuple', 'gen', 'truthy', 'bitarray', 'frozenbitarray', 'array', 'bytesio',
-             'filehandle']
+RHS_FAMILY = {'str_bin': 'str', 'str_hex': 'str', 'str_oct': 'str', 'str_mix': 'str', 'str_uint': 'str',
+              'bytes': 'bytes-like', 'bytearray': 'bytes-like', 'memoryview': 'bytes-like', 'array': 'bytes-like',
+              'bytesio': 'file-like', 'filehandle': 'file-like',
+              'list': 'iterable', 'tuple': 'iterable', 'gen': 'iterable', 'truthy': 'iterable',
+              'bitarray': 'bitarray', 'frozenbitarray': 'bitarray'}
 
 
 class _K:
@@ -844,14 +846,14 @@ def judge_operand(ctx, c):
     made, opened = [], []
     sc = short(c)
     kind = c['rhs'][0]
-    ic = 'promotable:' + kind
+    ic = 'promotable:' + RHS_FAMILY[kind]
     try:
         with util.options(lsb0=False, bytealigned=False):
             b = construct(ctx, c['obj'], False, made, c)
             if b is None:
                 return
             x = b[0]
-            if b[1] != 'memory':
+            if b[1] == 'file-length<filesize':
                 ic += ':' + b[1]
             xb = OB(x)
             exp = xb == c['rhs'][1]
@@ -1053,7 +1055,7 @@ def run(ctx):
         enumerate_nonprom(ctx)
         enumerate_badstr(ctx)
         enumerate_small_pairs(ctx)
-        n = ctx.scale(30000, 1200000)
+        n = ctx.scale(30000, 900000)
         for i in range(n):
             c = gen_objs_case(ctx) if ctx.rng.random() < 0.72 else gen_operand_case(ctx)
             ctx.run_case(judge, c)
